@@ -38,12 +38,33 @@ def extra_run(man, tier, seed):
     l2 = [f'{d}.cdf_real f64 {enc(sv)} {a}' for (d, sv, p), a in zip(meta, a1)]
     a2, _ = run_pair(l2, want_model=False)
     failures = []
+    suspects = []
     for (d, sv, p), x, c, line in zip(meta, a1, a2, l1):
         if x in ('PANIC', 'HANG') or c in ('PANIC', 'HANG', 'NOOP'):
             failures.append({'site': f'{d}.invcdf_real', 'case': line, 'impl': x, 'expected': 'no panic', 'observed': x.lower(), 'detail': ''})
             continue
         cv = tok_to_float(c)
         if not (abs(cv - p) <= 1e-8):
+            suspects.append(((d, sv, p), x, c, line))
+    # "up to rounding": where the cdf is steep (density ~1e9 next to an end point) one ulp of the quantile moves the cdf by more
+    # than 1e-8; a suspect is a failure only if p lies outside [cdf(x - 2ulp), cdf(x + 2ulp)] widened by 1e-8
+    import math as _m
+    nb = []
+    for (d, sv, p), x, c, line in suspects:
+        xv = tok_to_float(x)
+        lo = _m.nextafter(_m.nextafter(xv, -_m.inf), -_m.inf)
+        hi = _m.nextafter(_m.nextafter(xv, _m.inf), _m.inf)
+        nb += [f'{d}.cdf_real f64 {enc(sv)} {enc(lo)}', f'{d}.cdf_real f64 {enc(sv)} {enc(hi)}']
+    nbv, _ = run_pair(nb, want_model=False) if nb else ([], None)
+    for j, ((d, sv, p), x, c, line) in enumerate(suspects):
+        cv = tok_to_float(c)
+        try:
+            clo, chi = tok_to_float(nbv[2 * j]), tok_to_float(nbv[2 * j + 1])
+        except Exception:
+            clo = chi = cv
+        if min(clo, chi, cv) - 1e-8 <= p <= max(clo, chi, cv) + 1e-8:
+            continue
+        if True:
             failures.append({'site': f'{d}.invcdf_real', 'case': line, 'impl': f'invcdf={tok_to_float(x)!r} cdf(invcdf)={cv!r}',
                              'expected': f'cdf(invcdf(p)) = {p!r} within 1e-8', 'observed': 'value', 'detail': ''})
     # DiscreteUniform<T> over the integer kinds (hand model Hand.DiscreteUniform.invcdf = a + trunc(p (b-a)); generated cdf at
